@@ -295,6 +295,8 @@ def b_reversed(I, v):
 
 
 def b_enumerate(I, v, start=0):
+    if I.concrete_items(v) is None:
+        return SymEnumerate(I.seq_value(v), start)
     return tuple((i + start, x) for i, x in enumerate(I.need_items(v)))
 
 
